@@ -36,10 +36,18 @@ Code(d) == 1 + TI(d.t) + 4 * (d.n % 5) + 20 * WI(d.w)
 RECURSIVE Hash(_, _)
 Hash(p, h) == IF p = <<>> THEN h ELSE Hash(Tail(p), (h * 131 + Code(Head(p))) % 1000003)
 
+(* Mode "grp": k = 2..3 UPDATE messages cut from ONE attribute group share one attribute list
+   (packerV4.pack hands the same slice to every message); the path shapes are crossed with every
+   AGGREGATOR choice.  via "slice": messages built on one shared slice; via "packer": the messages
+   come out of table.CreateUpdateMsgFromPaths for more NLRIs than one UPDATE holds. *)
+Aggs == {"none", "narrow", "wide", "w65536", "whigh"}
+AggI(a) == CASE a = "none" -> 0 [] a = "narrow" -> 1 [] a = "wide" -> 2 [] a = "w65536" -> 3 [] OTHER -> 4
+
 Init == IF Mode = "rt" THEN c = [kind |-> "rt", p |-> <<>>]
+        ELSE IF Mode = "grp" THEN c \in {[kind |-> "grp", p |-> <<>>, agg |-> a, k |-> k] : a \in Aggs, k \in {2, 3}}
         ELSE c = [kind |-> "pair", a2 |-> <<>>, has4 |-> FALSE, a4 |-> <<>>]
 
-GrowRt == /\ c.kind = "rt" /\ Len(c.p) < MaxSegs2
+GrowRt == /\ c.kind \in {"rt", "grp"} /\ Len(c.p) < MaxSegs2
           /\ \E d \in Descs(Types2, Lens2, Pats2) :
                /\ ValidD(Append(c.p, d))
                /\ c' = [c EXCEPT !.p = Append(c.p, d)]
@@ -55,10 +63,11 @@ Next == GrowRt \/ GrowA2 \/ StartA4 \/ GrowA4
 Spec == Init /\ [][Next]_vars
 
 H == IF c.kind = "rt" THEN Hash(c.p, 7)
+     ELSE IF c.kind = "grp" THEN Hash(c.p, 17 + 5 * AggI(c.agg) + c.k)
      ELSE Hash(c.a4, Hash(c.a2, IF c.has4 THEN 11 ELSE 13))
 
 Selected == /\ H % Modulus = Residue
-            /\ NeedLong => (IF c.kind = "rt" THEN Long(c.p) ELSE Long(c.a2) \/ Long(c.a4))
+            /\ NeedLong => (IF c.kind \in {"rt", "grp"} THEN Long(c.p) ELSE Long(c.a2) \/ Long(c.a4))
 
 RtAgg == LET k == H % 5 IN
          CASE k = 0 -> "none" [] k = 1 -> "narrow" [] k = 2 -> "wide" [] k = 3 -> "w65536" [] OTHER -> "whigh"
@@ -67,6 +76,8 @@ PairG == LET k == (H \div 7) % 8 IN
            [] k = 6 -> <<"narrow", "none">> [] k = 7 -> <<"trans", "none">> [] OTHER -> <<"none", "none">>
 
 Schedule == IF c.kind = "rt" THEN [kind |-> "rt", p |-> c.p, agg |-> RtAgg]
+            ELSE IF c.kind = "grp" THEN [kind |-> "grp", p |-> c.p, agg |-> c.agg, k |-> c.k,
+                                         via |-> IF (H \div 3) % 8 = 0 THEN "packer" ELSE "slice"]
             ELSE [kind |-> "pair", a2 |-> c.a2, has4 |-> c.has4, a4 |-> c.a4,
                   g2 |-> PairG[1], g4 |-> PairG[2]]
 
